@@ -87,6 +87,18 @@ def run(ctx):
                 for nlp in (False, True):
                     extra.append(dict(entry=entry, limit=rnd.choice([2, 10, 50]), nlp=nlp, fuzzy=True, thr=0, ponly=False, pboost=False, allplat=True,
                                       plats=[], nocross=False, boost=False, query="raw", raw=raw, corpus=corpus))
+    # the pipeline search entry point with a pipeline boost over pipelines and plain commands alike
+    for qk in ("lex", "typo"):
+        for lim in (5, 50):
+            for corpus in ("mix", "plat"):
+                extra.append(dict(entry="pipeline", limit=lim, nlp=False, fuzzy=False, thr=0, ponly=False, pboost=True, allplat=True, plats=[],
+                                  nocross=False, boost=False, query=qk, corpus=corpus))
+    # a cached answer, the cache switched off, the database replaced, the cache switched on again
+    for qk in ("lex", "typo"):
+        for nlp in (False, True):
+            for lim in (3, 50):
+                extra.append(dict(entry="cachedseq", limit=lim, nlp=nlp, fuzzy=True, thr=0, ponly=False, pboost=False, allplat=True, plats=[],
+                                  nocross=False, boost=False, query=qk, corpus="mix", prime="none"))
     extra += shipped_scenarios(rnd, 60 if q else 1500)
     tr, info, ok, rej = engine.run_cases(ctx, scen + extra, ["C01"])
     for x in rej:
